@@ -325,8 +325,14 @@ func propC12Sequential(t *rapid.T) {
 				clk.advance(next - clk.Now().Sub(time.Unix(0, 0)))
 			}
 			lastTick = clk.Now().Sub(time.Unix(0, 0))
+			// (what travels on a ticker's channel is the clock's business: a user's Clock may send its own idea of the
+			// time, including the zero value - a tick is a tick)
+			tickValue := clk.Now()
+			if rapid.IntRange(0, 3).Draw(rt, "zeroTimeTick") == 0 {
+				tickValue = time.Time{}
+			}
 			select {
-			case ch <- clk.Now():
+			case ch <- tickValue:
 			case <-time.After(3 * time.Second):
 				fail("VERIF-DEADLOCK flush loop did not take a tick within 3s")
 			}
